@@ -416,6 +416,20 @@ impl<T> IntoOpt<T> for Option<T> {
     fn into_opt(self) -> (r: Option<T>) { self }
 }
 
+/// R12 helper: `v.last_mut().unwrap().push(x)` (Verus has no `&mut`-returning methods): pushes onto the last inner vector.
+/// The body below is verified; that it is what `last_mut().unwrap().push(x)` does is the definition of `last_mut`.
+pub fn vec_last_push<T>(v: &mut Vec<Vec<T>>, x: T)
+    requires old(v)@.len() > 0,
+    ensures
+        final(v)@.len() == old(v)@.len(),
+        forall|i: int| 0 <= i < old(v)@.len() - 1 ==> final(v)@[i] == old(v)@[i],
+        final(v)@.last()@ == old(v)@.last()@.push(x),
+{
+    let mut last = v.pop().unwrap();
+    last.push(x);
+    v.push(last);
+}
+
 /// R11: `format!(..)` in error paths: value irrelevant
 #[verifier::external_body]
 pub fn opaque_string() -> String { unimplemented!() }
